@@ -50,3 +50,37 @@ func verif_validateDomainConfigForServer(c *v1.DomainConfig, s *v1.ServerConfig,
 func verifLoopDomains(c *v1.DomainConfig, s *v1.ServerConfig, idx int, m int) bool {
 	return m < 0 || m > idx || m >= len(c.CustomDomains) || !VerifInSubdomainSpace(c.CustomDomains[m], s.SubDomainHost)
 }
+
+// Server-side validation of a reconstructed proxy: an accepted vhost-class
+// proxy (http, https, tcpmux) is only accepted when the server has the
+// matching vhost port, and none of its custom domains lies in the server's
+// subdomain space.
+//
+//verif:contract ~/pkg/config/v1/validation.ValidateProxyConfigurerForServer
+//verif:props C18
+func verif_ValidateProxyConfigurerForServer(c v1.ProxyConfigurer, s *v1.ServerConfig, k int) {
+	verif.Requires(c != nil, "configuration_present")
+	err := ValidateProxyConfigurerForServer(c, s)
+	if err == nil {
+		if v, ok := c.(*v1.HTTPProxyConfig); ok {
+			verif.Ensures(s.VhostHTTPPort != 0, "http_needs_vhost_http_port")
+			if k >= 0 && k < len(v.CustomDomains) {
+				verif.Ensures(!VerifInSubdomainSpace(v.CustomDomains[k], s.SubDomainHost), "http_domains_outside_subdomain_space")
+			}
+		}
+		if v, ok := c.(*v1.HTTPSProxyConfig); ok {
+			verif.Ensures(s.VhostHTTPSPort != 0, "https_needs_vhost_https_port")
+			if k >= 0 && k < len(v.CustomDomains) {
+				verif.Ensures(!VerifInSubdomainSpace(v.CustomDomains[k], s.SubDomainHost), "https_domains_outside_subdomain_space")
+			}
+		}
+		if v, ok := c.(*v1.TCPMuxProxyConfig); ok {
+			if v.Multiplexer == string(v1.TCPMultiplexerHTTPConnect) {
+				verif.Ensures(s.TCPMuxHTTPConnectPort != 0, "tcpmux_needs_httpconnect_port")
+			}
+			if k >= 0 && k < len(v.CustomDomains) {
+				verif.Ensures(!VerifInSubdomainSpace(v.CustomDomains[k], s.SubDomainHost), "tcpmux_domains_outside_subdomain_space")
+			}
+		}
+	}
+}
